@@ -135,8 +135,41 @@ statement whose failure was defect D15. An edit to the argument lists changes th
 theorem remove_wiring {F : Type} [Field F] (sqrtN : ℕ → F) (cos sin : F → F) (p k : ℕ)
     (a : Gen.RemoveArgs (ℕ → F) (ℕ → Bool) (ℕ → ℕ) (ℕ → F)) (fa : Gen.FitArgs (ℕ → F) (ℕ → Bool) (ℕ → ℕ) (ℕ → F)) :
     fitA sqrtN cos sin p k fa = fitX p k (zBasisX sqrtN cos sin fa.modes fa.normalize fa.rho fa.theta fa.mask) fa.opd ∧
-    removeA sqrtN cos sin p k a = removeX p k (zBasisX sqrtN cos sin a.modes true a.rho a.theta a.mask) a.opd :=
-  ⟨rfl, rfl⟩
+    removeA sqrtN cos sin p k a = removeX p k (zBasisX sqrtN cos sin a.modes true a.rho a.theta a.mask) a.opd := by
+  -- the model's fit first selects the OPD with the mask (`Gen.fitSelect`); over a field that changes nothing (the basis rows vanish outside)
+  have key : ∀ (modes : ℕ → ℕ) (nz : Bool) (rho theta : ℕ → F) (mask : ℕ → Bool) (opd : ℕ → F),
+      fitX p k (zBasisX sqrtN cos sin modes nz rho theta mask) (fun s => Gen.fitSelect (mask s) (opd s))
+        = fitX p k (zBasisX sqrtN cos sin modes nz rho theta mask) opd := by
+    intro modes nz rho theta mask opd
+    funext b
+    refine (remove_outside_mask sqrtN cos sin p k modes nz rho theta mask _ opd).2 ?_ b
+    intro s _ hm
+    simp [Gen.fitSelect, hm]
+  refine ⟨key _ _ _ _ _ _, ?_⟩
+  funext s
+  show a.opd s - composeX k _ (fitX p k _ _) s = _
+  rw [show (Gen.removeFitArgs a).mask = a.mask from rfl] at *
+  exact congrArg (fun f => a.opd s - composeX k (zBasisX sqrtN cos sin a.modes true a.rho a.theta a.mask) f s) (key a.modes true a.rho a.theta a.mask a.opd)
+
+/-- **samples outside the mask do not influence `zernike_fit`** — by the regenerated selection `Gen.fitSelect` (`np.where(mask != 0, opd, 0)`)
+itself, with no arithmetic: two OPDs that agree on the mask give the same argument to the contraction. This is the clause the repair of
+KF-C12-nonfinite-outside-mask restored; it holds for ANY scalar type with the model's operations (no `0 · x = 0` is used), in particular
+for the `Float` run of the model with NaN / ±inf outside the mask. Removing the statement from the source turns `Gen.fitSelect` into the identity
+and breaks this theorem. -/
+theorem fit_ignores_outside_mask {K : Type} [Add K] [Sub K] [Mul K] [Div K] [Neg K] [Zero K] [One K] [IntCast K]
+    (sqrtN : ℕ → K) (cos sin : K → K) (p k : ℕ) (a a' : Gen.FitArgs (ℕ → K) (ℕ → Bool) (ℕ → ℕ) (ℕ → K))
+    (hm : a'.mask = a.mask) (hmo : a'.modes = a.modes) (hn : a'.normalize = a.normalize) (hr : a'.rho = a.rho) (ht : a'.theta = a.theta)
+    (hag : ∀ s, a.mask s = true → a'.opd s = a.opd s) :
+    fitA sqrtN cos sin p k a' = fitA sqrtN cos sin p k a := by
+  have hsel : (fun s => Gen.fitSelect (a'.mask s) (a'.opd s)) = (fun s => Gen.fitSelect (a.mask s) (a.opd s)) := by
+    funext s
+    rw [hm]
+    by_cases h : a.mask s = true
+    · simp [Gen.fitSelect, h, hag s h]
+    · simp [Gen.fitSelect, h]
+  unfold fitA
+  rw [hsel]
+  simp only [Gen.fitBasisArgs, hm, hmo, hn, hr, ht]
 
 /-- outside the mask `zernike_remove` leaves the OPD untouched (the basis rows vanish there), and the fit does not depend on the OPD
 there -/
